@@ -150,7 +150,9 @@ func StartServerAt(base, dir string) (*Server, error) {
 		return nil, err
 	}
 	s.pool = sql.OpenDB(conn)
-	s.pool.SetMaxIdleConns(8)
+	// no idle connections: a closed Session must never be handed out again with its server-side
+	// state (autocommit, open transaction, current database, checked-out branch)
+	s.pool.SetMaxIdleConns(0)
 	if err := s.pool.Ping(); err != nil {
 		return nil, fmt.Errorf("ping: %w", err)
 	}
